@@ -177,3 +177,15 @@ impl Default for Config {
         }
     }
 }
+
+#[cfg(feature = "verif-hooks")]
+impl Settings {
+    /// The `SETTINGS_MAX_FIELD_SECTION_SIZE` value held by this settings object
+    pub fn verif_max_field_section_size(&self) -> u64 {
+        self.max_field_section_size
+    }
+    /// The `WEBTRANSPORT_MAX_SESSIONS` value held by this settings object
+    pub fn verif_max_webtransport_sessions(&self) -> u64 {
+        self.max_webtransport_sessions
+    }
+}
